@@ -435,6 +435,21 @@ def _is_sym_bytes(patt, string) -> bool:
     return isinstance(string, BytesLike) and isinstance(patt, re.Pattern) and isinstance(patt.pattern, bytes)
 
 
+def _concrete(*vals) -> bool:
+    from crosshair.util import CrossHairValue
+
+    return not any(isinstance(v, CrossHairValue) for v in vals)
+
+
+def _native(method, self, *args):
+    """call the real re.Pattern method on concrete arguments without re-entering a patch"""
+    with NoTracing():
+        args = list(args)
+        while args and args[-1] is None:
+            args.pop()
+        return method(self, *args)
+
+
 def _chars_of(string) -> list:
     with ResumedTracing():
         n = realize(len(string))
@@ -480,6 +495,8 @@ def _search(self, string, pos=0, endpos=None):
                 return None
             except ReUnhandled as ex:
                 R.debug("Unsupported symbolic regex", self.pattern, ex)
+    if _concrete(self, string, pos, endpos):
+        return _native(re.Pattern.search, self, string, pos, endpos)
     return _ORIG["search"](self, string, pos, endpos)
 
 
@@ -493,6 +510,8 @@ def _match(self, string, pos=0, endpos=None):
                 return None if g is None else _mk(self, string, g, p, e)
             except ReUnhandled as ex:
                 R.debug("Unsupported symbolic regex", self.pattern, ex)
+    if _concrete(self, string, pos, endpos):
+        return _native(re.Pattern.match, self, string, pos, endpos)
     return _ORIG["match"](self, string, pos, endpos)
 
 
@@ -506,6 +525,8 @@ def _fullmatch(self, string, pos=0, endpos=None):
                 return None if g is None else _mk(self, string, g, p, e)
             except ReUnhandled as ex:
                 R.debug("Unsupported symbolic regex", self.pattern, ex)
+    if _concrete(self, string, pos, endpos):
+        return _native(re.Pattern.fullmatch, self, string, pos, endpos)
     return _ORIG["fullmatch"](self, string, pos, endpos)
 
 
@@ -543,6 +564,8 @@ def _finditer(self, string, pos=0, endpos=None):
                 return iter([_mk(self, string, g, p, e) for g in found])
             except ReUnhandled as ex:
                 R.debug("Unsupported symbolic regex", self.pattern, ex)
+    if _concrete(self, string, pos, endpos):
+        return _native(re.Pattern.finditer, self, string, pos, endpos)
     return _ORIG["finditer"](self, string, pos, endpos)
 
 
@@ -558,6 +581,21 @@ def _subn(self, repl, string, count=0):
             except ReUnhandled as ex:
                 R.debug("Unsupported symbolic regex", self.pattern, ex)
     if not symbolic:
+        if _concrete(self, string, count) and (not callable(repl)) and _concrete(repl):
+            with NoTracing():
+                return re.Pattern.subn(self, repl, string, count)
+        if _concrete(self, string, count) and callable(repl):
+            # concrete string, python callback: run the real engine, the callback stays traced
+            with NoTracing():
+                matches = list(re.Pattern.finditer(self, string))
+            if count:
+                matches = matches[:count]
+            pieces = string[:0]
+            last = 0
+            for m in matches:
+                pieces = pieces + string[last : m.start()] + repl(m)
+                last = m.end()
+            return (pieces + string[last:], len(matches))
         return _ORIG["subn"](self, repl, string, count)
     count = realize(count)
     if count:
